@@ -587,6 +587,8 @@ class Lowerer:
             if const_method: cname += '_const'
             recv = self.e(base) if callee.get('isArrow') else self.addr(base)
             self.rule('iterator-producing method: receiver by pointer')
+        elif cls in OBJECT_TYPES:
+            recv = self.e(base) if callee.get('isArrow') else self.addr(base)     # identity objects: always by pointer
         elif callee.get('isArrow'):
             recv = self.e(base)
         elif const_method and not self.is_repo_class(bt):
@@ -1417,6 +1419,8 @@ class Lowerer:
 ENUM_MODEL_TYPES = {'QtMsgType', 'Handler_HandlerType', 'QIODevice_OpenModeFlag', 'QDir_Filter', 'QDir_SortFlag',
                     'Qt_CaseSensitivity', 'Qt_DateFormat', 'QEvent_Type', 'Qt_SplitBehaviorFlags', 'QJsonDocument_JsonFormat',
                     'QEvent_Type', 'Qt_EventPriority', 'QSettings_Format', 'QUuid_StringFormat', 'Qt_TimeSpec'}
+OBJECT_TYPES = {'QFile', 'QFileDevice', 'QIODevice', 'QSaveFile', 'QObject', 'QThread', 'QCoreApplication', 'QMutex', 'QRecursiveMutex',
+                'QTextStream', 'QSettings', 'QEvent', 'QNetworkAccessManager', 'QNetworkReply'}
 PURE_EXTERN_METHODS = {'toStdString', 'errorString', 'fileName', 'toUtf8', 'toLocal8Bit', 'size', 'constData', 'data', 'c_str', 'toString'}
 ITER_METHODS = {'begin', 'end', 'cbegin', 'cend', 'constBegin', 'constEnd', 'rbegin', 'rend', 'crbegin', 'crend'}
 RAII_TYPES = {'QMutexLocker', 'QMutexLocker_QMutex', 'QMutexLocker_QRecursiveMutex'}
